@@ -143,6 +143,8 @@ class Env:
                     elif k == 'tick':
                         env.t += max(0, act[1])
                 return json.dumps(reads)
+            runs = run       # the same resource under a section with response.stream on (the save is then deferred
+            #                  to on_end_request, after the body has been written)
         self.Root = Root
 
     def app(self, backend, tmo_min):
@@ -156,7 +158,7 @@ class Env:
                 conf['tools.sessions.storage_path'] = self.dir
             else:
                 conf['tools.sessions.storage_class'] = self.sessions.RamSession
-            self.apps[key] = wsgi.make_app(self.Root(), {'/': conf})
+            self.apps[key] = wsgi.make_app(self.Root(), {'/': conf, '/runs': {'response.stream': True}})
         return self.apps[key]
 
     def reset(self, rng):
@@ -674,7 +676,9 @@ Proof. vm_compute. reflexivity. Qed.
                 o['sent'] = p
                 o['cat'] = self.category(p, before, env.t)
                 hdrs = [] if p is None else [('Cookie', 'session_id=%s' % p)]
-                r = wsgi.call(app, 'GET', '/run?a=' + urllib.parse.quote(json.dumps(op[3])), hdrs)
+                # one history in five is served by the streamed twin of the resource (same session semantics)
+                path = '/runs' if (len(c['ops']) + c['tmo_min']) % 5 == 0 else '/run'
+                r = wsgi.call(app, 'GET', path + '?a=' + urllib.parse.quote(json.dumps(op[3])), hdrs)
                 if env.exhausted:
                     o['st'] = 599
                 elif r.status != 200 or r.escaped:
